@@ -957,29 +957,39 @@ _BTree_set(BTree *self, PyObject *keyarg, PyObject *value,
         }
     }
 
-    /* Remove the child from self->data. */
-    Py_DECREF(d->child);
-#ifdef KEY_TYPE_IS_PYOBJECT
-    if (min)
-    {
-        DECREF_KEY(d->key);
-    }
-    else if (self->len > 1)
-    {
-        /* We're deleting the first child of a BTree with more than one
-        * child.  The key at d+1 is about to be shifted into slot 0,
-        * and hence never to be referenced again (the key in slot 0 is
-        * trash).
-        */
-        DECREF_KEY((d+1)->key);
-    }
-    /* Else min==0 and len==1:  we're emptying the BTree entirely, and
-    * there is no key in need of decrefing.
+    /* Remove the child from self->data.  The child and the key are
+    * released only after the slot is gone:  releasing one can run arbitrary
+    * code (the __del__ of a key) that looks at this node again.
     */
+    {
+        Sized *oldchild = d->child;
+#ifdef KEY_TYPE_IS_PYOBJECT
+        PyObject *oldkey = NULL;
+        if (min)
+        {
+            oldkey = d->key;
+        }
+        else if (self->len > 1)
+        {
+            /* We're deleting the first child of a BTree with more than one
+            * child.  The key at d+1 is about to be shifted into slot 0,
+            * and hence never to be referenced again (the key in slot 0 is
+            * trash).
+            */
+            oldkey = (d+1)->key;
+        }
+        /* Else min==0 and len==1:  we're emptying the BTree entirely, and
+        * there is no key in need of decrefing.
+        */
 #endif
-    --self->len;
-    if (min < self->len)
-        memmove(d, d+1, (self->len - min) * sizeof(BTreeItem));
+        --self->len;
+        if (min < self->len)
+            memmove(d, d+1, (self->len - min) * sizeof(BTreeItem));
+        Py_DECREF(oldchild);
+#ifdef KEY_TYPE_IS_PYOBJECT
+        Py_XDECREF(oldkey);
+#endif
+    }
     changed = 1;
 
 Done:
